@@ -286,4 +286,20 @@ def backtrack (mtch : Template → Schedule → Except Err Bool) (checks : List 
     if k > s.n then .ok [s]
     else btLoop (btStep mtch checks tmpl k) (fun c => backtrack mtch checks tmpl fuel c (k + 1)) (s.n - k + 1) s
 
+/-! ## construction (`SchedulePattern.__init__` / `AccessPattern.__init__`) and the use in `AutoflowScheduler` -/
+
+/-- `Schedule(SchedulePattern(bounds, pattern) for ...)`: every bound must be a strictly positive integer and
+every matrix must have one column per bound, otherwise `ValueError` -/
+def construct (bounds : List Int) (ops : List Operand) : Except Err Schedule :=
+  if bounds.any (· ≤ 0) then .error .valueError
+  else if ops.any (fun o => o.rows.any (·.length != bounds.length)) then .error .valueError
+  else .ok { bounds := bounds.map Int.toNat, ops := ops }
+
+/-- `AutoflowScheduler`: canonicalize, then the first schedule yielded under the two default constraints;
+`none` = the generator is empty (Python: `StopIteration`) -/
+def autoflow (sizes : List Nat) (tmpl : Template) (fuel : Nat) (s : Schedule) : Except Err (Option Schedule) :=
+  match backtrack matchesQ [isPureOutputStationary, isMemoryFlexibleEnough sizes] tmpl fuel (canonicalize s) 1 with
+  | .error e => .error e
+  | .ok rs => .ok rs.head?
+
 end SnaxVerif.Sched
